@@ -297,3 +297,103 @@ fn c05_schedule_reports_deadlock() {
     let _ = ex.schedule();
     must_not_reach!("C05.sched.deadlock_goes_unreported");
 }
+
+// ================================================================================================
+// C16: Execution::step resets every piece of per-iteration state;  S.newthread;  C19: Execution::new
+// ================================================================================================
+
+//@ props=C16,C14 tier=quick timeout=1500 fns=src/rt/execution.rs::Execution::step,src/rt/thread.rs::Set::clear,src/rt/object.rs::Store::clear,src/rt/lazy_static.rs::Set::reset,src/rt/execution.rs::Id::new bounded=threads:N=3,path:depth=2,objects:2,raw_allocations:empty,arc_objs:empty models=VersionVec::join=s_vv_models_agree
+#[kani::proof]
+#[kani::unwind(8)]
+#[kani::stub(std::hash::RandomState::new, crate::rt::thread::verif_kani::fixed_random_state)]
+fn c16_execution_step_resets_everything() {
+    // end-of-iteration state: 3 threads with arbitrary states/clocks/pending operations, 2 objects,
+    // a 2-entry path; lazy statics already dropped (as `Builder::check` does before stepping)
+    let mut set = tv::any_set(SN);
+    tv::any_pending_ops(&mut set, |k| if k == 0 { None } else { Some(crate::rt::object::verif_kani::op_opaque(0)) });
+    let path = pv::any_path(2, 4);
+    let pv0 = pv::path_view(&path);
+    kani::assume(pv::wf_path(&pv0));
+    let mut ex = exec_with_path(ManuallyDrop::into_inner(set), ManuallyDrop::into_inner(path), 4);
+    ex.objects.insert(crate::rt::mutex::verif_kani::mutex_state_with_access(0));
+    ex.objects.insert(crate::rt::mutex::verif_kani::mutex_state_with_access(1));
+    let _ = ex.lazy_statics.drop();
+    ex.location = kani::any();
+    ex.log = kani::any();
+    let (old_id, old_loc, old_log, old_max) = (ex.id.0, ex.location, ex.log, ex.max_threads);
+    // what Path::step will answer (its own contract: c14_path_step)
+    let has_next = {
+        let mut r = false;
+        let mut i = 0;
+        while i < 2 {
+            if pv::is_exploring(&pv0.entries[i]) && pv::has_alternative(&pv0.entries[i]) {
+                r = true;
+            }
+            i += 1;
+        }
+        r
+    };
+    let next = ManuallyDrop::into_inner(ex).step();
+    oblige!("C16.step.none_iff_path_exhausted", next.is_some() == has_next);
+    if let Some(n) = next {
+        let n = ManuallyDrop::new(n);
+        let s = tv::set_view(&n.threads);
+        oblige!("C16.step.exactly_one_fresh_main_thread", s.len == 1 && s.active == Some(0)
+            && s.th[0].st == (tv::StView::Runnable { unparked: false }) && s.th[0].op.is_none() && !s.th[0].critical
+            && vvk::eq(&s.th[0].causality, &vvk::zero_vv()) && vvk::eq(&s.th[0].released, &vvk::zero_vv()) && vvk::eq(&s.th[0].dpor_vv, &vvk::zero_vv())
+            && s.th[0].last_yield.is_none() && s.th[0].yield_count == 0 && tv::locals_len(&n.threads, 0) == 0);
+        oblige!("C16.step.sc_fence_view_reset", vvk::eq(&s.seq_cst, &vvk::zero_vv()));
+        oblige!("C16.step.object_store_empty", crate::rt::object::verif_kani::store_len(&n.objects) == 0);
+        oblige!("C16.step.allocation_and_arc_registries_empty", n.raw_allocations.is_empty() && n.arc_objs.is_empty());
+        oblige!("C16.step.lazy_statics_reinitialised_empty", crate::rt::lazy_static::verif_kani::is_live_and_empty(&n.lazy_statics));
+        oblige!("C16.step.fresh_execution_id_shared_with_threads", n.id.0 != old_id && tv::wf_set(&n.threads) && n.threads.execution_id() == n.id);
+        oblige!("C16.step.configuration_carried_over", n.location == old_loc && n.log == old_log && n.max_threads == old_max && n.max_history == 7);
+        let p = pv::path_view(&n.path);
+        oblige!("C16.step.path_rewound_to_start", p.pos == 0 && !p.skipping && p.exploring == pv0.exploring_on_start);
+        reach!("c16_step_some");
+    }
+}
+
+//@ props=C16,C17 tier=quick fns=src/rt/lazy_static.rs::Set::reset,src/rt/lazy_static.rs::Set::drop,src/rt/lazy_static.rs::Set::new expect_panic=lazy_static_was_not_dropped_during_execution
+#[kani::proof]
+#[kani::unwind(8)]
+#[kani::stub(std::hash::RandomState::new, crate::rt::thread::verif_kani::fixed_random_state)]
+fn c16_lazy_reset_requires_drop() {
+    let mut s = ManuallyDrop::new(lazy_static::Set::new());
+    s.reset(); // not dropped => the documented assertion fires
+    must_not_reach!("C16.lazy.reset_without_drop_goes_unreported");
+}
+
+crate::with_fire_forbidden! {
+//@ props=C04,C19 tier=quick fns=src/rt/execution.rs::Execution::new_thread,src/rt/thread.rs::Set::new_thread,src/rt/thread.rs::Set::active2_mut bounded=threads:N=3 models=VersionVec::join=s_vv_models_agree
+#[kani::proof]
+#[kani::unwind(8)]
+fn s_execution_new_thread() {
+    let set = tv::any_set_cap(SN, 5);
+    tv::assume_incrementable(&set);
+    let old = tv::set_view(&set);
+    let a = old.active.unwrap();
+    let oa = old.th[a];
+    let mut ex = exec_with(ManuallyDrop::into_inner(set), 4);
+    let id = ex.new_thread();
+    let new = tv::set_view(&ex.threads);
+    oblige!("S.newthread.id_is_previous_len", id.as_usize() == SN && new.len == SN + 1 && new.active == old.active);
+    let child = new.th[SN];
+    let na = new.th[a];
+    // spawn edge (C04): everything the parent did happens-before the child's first step
+    let mut want_child = oa.causality;
+    want_child.inc(id);
+    oblige!("S.newthread.child_starts_with_exactly_parents_view_plus_own_tick", vvk::eq(&child.causality, &want_child));
+    oblige!("S.newthread.parent_ticks_own_component_only", vvk::is_inc(&na.causality, &oa.causality, a));
+    oblige!("S.newthread.child_dpor_clock_is_parents", vvk::eq(&child.dpor_vv, &oa.dpor_vv) && vvk::eq(&na.dpor_vv, &oa.dpor_vv));
+    oblige!("S.newthread.child_runnable_without_token_or_operation", child.st == (tv::StView::Runnable { unparked: false }) && child.op.is_none()
+        && vvk::eq(&child.released, &vvk::zero_vv()) && child.yield_count == 0 && child.last_yield.is_none());
+    let mut i = 0;
+    while i < SN {
+        oblige!("S.newthread.frame_other_threads", i == a || tv::th_view_eq(&old.th[i], &new.th[i]));
+        i += 1;
+    }
+    oblige!("S.newthread.parent_otherwise_unchanged", tv::th_view_eq_except_causality(&oa, &na));
+    reach!("s_execution_new_thread");
+}
+}
